@@ -1,4 +1,11 @@
 W = 'src/writer.rs'
+SKIP = dict(rule='R15', pat=r'if object\s*\.type_name\(\)\s*\.map\(\|name\| \[lit_4f626a53746d\(\)\.as_slice\(\), lit_58526566\(\)\.as_slice\(\), lit_4c696e656172697a6564\(\)\.as_slice\(\)\]\.contains\(&name\)\)\s*\.ok\(\)\s*!= Some\(true\)\s*\{', to='if !is_structural_object(object) {', count=1, note='ObjStm/XRef/Linearized skip test replaced by an uninterpreted predicate')
+CW0 = dict(rule='R4c', pat=r'let mut target = CountingWrite \{\s*inner: target,\s*bytes_written: ([^,]+),\s*\};', to=r'let __bw0: usize = \1;', count=1, note='construction of CountingWrite hoisted to the caller: the parameter is the CountingWrite itself')
+SIG = dict(rule='R4c', pat=r'fn save_internal<W: Write>\(&mut self, target: &mut W\)', to='fn save_internal<W: Write>(&mut self, target: &mut CountingWrite<W>)', count=1, note='see R4c')
+VERS = dict(rule='R3', lit='(target, self.version)', to='(target, &self.version)', count=1, note='format arguments are taken by reference')
+VERS2 = dict(rule='R3', lit='(target, self.new_document.version)', to='(target, &self.new_document.version)', count=1, note='format arguments are taken by reference')
+TARGET = dict(rule='R4c', pat=r'&mut target\b', to='target', note='`&mut target` -> `target` (the parameter already is the &mut CountingWrite)')
+
 X = 'src/xref.rs'
 BT = [dict(rule='R8', lit='BTreeMap::new()', to='VBTreeMap::new()', note='BTreeMap model')]
 ITOA = [dict(rule='R5', lit='itoa::Buffer::new()', to='ItoaBuffer::new()', note='itoa shim'),
@@ -6,7 +13,7 @@ ITOA = [dict(rule='R5', lit='itoa::Buffer::new()', to='ItoaBuffer::new()', note=
 UNIT = dict(
     properties=['C01', 'C03', 'C14', 'C19'],
     prelude=['io.rs', 'pdfobj.rs', 'containers.rs'],
-    spec=['spec.rs', 'xrefspec.rs'],
+    spec=['spec.rs', 'xrefspec.rs', 'docspec.rs'],
     types=[
         dict(file='src/object.rs', kind='type', name='ObjectId'),
         dict(file='src/object.rs', kind='enum', name='StringFormat'),
@@ -17,6 +24,12 @@ UNIT = dict(
         dict(file='src/writer.rs', kind='enum', name='XRefStreamFilter', structural=True),
         dict(file='src/xref.rs', kind='enum', name='XrefEntry'),
         dict(file='src/xref.rs', kind='struct', name='XrefSection'),
+        dict(file='src/document.rs', kind='struct', name='Document', subst=[
+            dict(rule='R8', lit='BTreeMap<ObjectId, Object>', to='ObjMap', count=1, note='BTreeMap model: key-ordered entry list'),
+            dict(rule='R12', lit='pub version: String,', to='pub version: std::string::String,', count=1, note='path made explicit (flattened module has `use Object::*`)'),
+            dict(rule='R15', pat=r'^\s*pub bookmark_table: HashMap<u32, Bookmark>,\n', to='', count=1, note='field not used by the writer'),
+            dict(rule='R15', pat=r'^\s*pub encryption_state: Option<EncryptionState>,\n', to='', count=1, note='field not used by the writer')]),
+        dict(file='src/incremental_document.rs', kind='struct', name='IncrementalDocument'),
         dict(file='src/xref.rs', kind='struct', name='Xref', subst=[dict(rule='R8', lit='BTreeMap<u32, XrefEntry>', to='VBTreeMap<u32, XrefEntry>', note='BTreeMap model')]),
     ],
     functions=[
@@ -55,6 +68,17 @@ UNIT = dict(
             dict(rule='R15', pat=r'xref_stream = xref_stream\s*\.iter\(\)\s*\.flat_map\(\|c\| format!\("\{:02X\}", c\)\.as_bytes\(\)\.to_vec\(\)\)\s*\.collect::<Vec<u8>>\(\);', to='xref_stream = ascii_hex_encode(xref_stream);', count=1, note='ASCIIHex branch (dead: the only caller passes XRefStreamFilter::None) replaced by an uninterpreted shim'),
         ])),
         dict(file=W, impl='Writer', name='write_indirect_object'),
+        dict(file='src/incremental_document.rs', impl='IncrementalDocument', name='get_prev_documents', rules=dict(no_sink=True)),
+        dict(file='src/incremental_document.rs', impl='IncrementalDocument', name='get_prev_documents_bytes', rules=dict(no_sink=True)),
+        dict(file=W, impl='Document', name='write_trailer', rules=dict(subst=[
+            dict(rule='R11', lit='i64::from(self.max_id + 1));', to='Object::Integer((self.max_id + 1) as i64));', count=1, note='Into<Object> at i64 made concrete (object.rs:64 From<i64>)')])),
+        dict(file=W, impl='Document', name='write_cross_reference_stream', rules=dict(subst=[
+            dict(rule='R11', lit='i64::from(self.max_id + 1));', to='Object::Integer((self.max_id + 1) as i64));', count=1, note='Into<Object> at i64 made concrete'),
+            dict(rule='R11', lit='stream_length as i64);', to='Object::Integer(stream_length as i64));', count=1, note='Into<Object> at i64 made concrete'),
+            dict(rule='R5', lit='trailer.clone()', to='clone_dictionary(trailer)', count=1, note='derived Clone is structural identity'),
+        ])),
+        dict(file=W, impl='Document', name='save_internal', rules=dict(loops={1: dict(kind='idpairs', seq='self.objects.entries')}, pre_subst=[SIG], subst=[SKIP, CW0, TARGET, VERS])),
+        dict(file=W, impl='IncrementalDocument', name='save_internal', rules=dict(loops={1: dict(kind='idpairs', seq='self.new_document.objects.entries')}, pre_subst=[SIG], subst=[SKIP, CW0, TARGET, VERS2, dict(rule='R17', lit='target.bytes_written += prev_document_bytes.len();', to='target.bytes_written = counter_add(target.bytes_written, prev_document_bytes.len());', count=1, note='byte counter cannot overflow')])),
         dict(file=W, impl='Writer', name='write_binary_mark', rules=dict(subst=[
             dict(rule='R10', lit='binary_mark.iter().all(|&byte| byte >= 128)', to='all_ge_128(binary_mark)', note='iter().all template'),
             dict(rule='R7', pat=r'Err\(std::io::Error::new\(\s*std::io::ErrorKind::InvalidData,\s*"Invalid binary mark",\s*\)\)', to='Err(IoError)', note='error payload dropped'),
